@@ -1401,26 +1401,35 @@ class Container:
         if solute not in self.contents:
             raise ValueError(f"Container does not contain {solute.name}.")
 
-        new_ratio, numerator, denominator = Unit.calculate_concentration_ratio(solute, concentration, solvent)
+        new_concentration, numerator, denominator = Unit.parse_concentration(concentration)
 
         if numerator == 'U':
             if not solute.is_enzyme():
                 raise TypeError("Solute must be an enzyme.")
 
-        current_ratio = self.contents[solute] / sum(self.contents[substance] for
-                                                    substance in self.contents if not substance.is_enzyme())
-
-        if new_ratio <= 0:
+        if new_concentration <= 0:
             raise ValueError("Solution is impossible to create.")
 
-        if abs(new_ratio - current_ratio) <= 1e-6:
+        def amount_in(substance, value, unit):
+            """ Converts a stored amount of substance to `unit`. """
+            return Unit.convert_from(substance, value, 'U' if substance.is_enzyme() else config.moles_storage_unit, unit)
+
+        # concentration = (amount of solute in numerator units) / (total contents in denominator units)
+        solute_amount = amount_in(solute, self.contents[solute], numerator)
+        current_total = sum(amount_in(substance, value, denominator) for substance, value in self.contents.items())
+        solvent_per_umole = amount_in(solvent, Unit.convert_to_storage(1, 'umol'), denominator)
+        if solute_amount <= 0 or current_total <= 0 or solvent_per_umole <= 0:
+            raise ValueError("Solution is impossible to create.")
+        current_concentration = solute_amount / current_total
+
+        if abs(new_concentration - current_concentration) <= 1e-6 * current_concentration:
             return deepcopy(self)
 
-        if new_ratio > current_ratio:
+        if new_concentration > current_concentration:
             raise ValueError("Desired concentration is higher than current concentration.")
 
-        current_umoles = Unit.convert_from_storage(self.contents.get(solvent, 0), 'umol')
-        required_umoles = Unit.convert_from_storage(self.contents[solute], 'umol') / new_ratio - current_umoles
+        # solute_amount / (current_total + required_umoles * solvent_per_umole) == new_concentration
+        required_umoles = (solute_amount / new_concentration - current_total) / solvent_per_umole
         new_volume = self.volume + Unit.convert(solvent, f"{required_umoles} umol", config.volume_storage_unit)
 
         if new_volume > self.max_volume:
